@@ -12,14 +12,14 @@ import numpy as np
 from pymatgen.core import Lattice
 from scipy.constants import physical_constants
 
-from . import core
+from . import core, translate
 from .core import Outcome, PropertySpec, enc
 
 from gemdat.path import free_energy_graph  # noqa: E402
 from gemdat.volume import Volume  # noqa: E402
 
 PID = 'C09'
-MODULES = ['GProofs.C09']
+MODULES = ['GProofs.C09', 'GProofs.C09Gen']
 KB = physical_constants['Boltzmann constant in eV/K'][0]
 BIG = 1.7976931348623157e308
 TEMPS = [1.0, 300.0, 1000.5, 300.0, 650.0, 2.5e4, 1.0e5]  # also k_B T above 1 eV
@@ -181,6 +181,7 @@ SPEC = PropertySpec(
     modules=MODULES,
     run=run,
     replay=replay,
+    gen=translate.gen_for('FormulasC09'),
     rule=('random non-negative integer density grids up to 6x6x6 (sparse 0-2 counts, 60% empty with counts < 1000, a single visited '
           'voxel (p = 1), all visited up to 1e6, one voxel with 1e9-1e12 samples next to voxels visited < 12 times) x T in {1, 300, 650, 1000.5, 2.5e4, 1e5} x threshold in {1e20, 1e7, 0.5, 0.05}. On the implementation: '
           'all entries finite; exp(-F/kT) = density/total on visited voxels (1e-10) and sums to 1; F = -kT ln p against an '
